@@ -102,6 +102,7 @@ class C01(core.Check):
                       ['SCREEN 1', 'VIEW (100,100)-(200,150)', 'PRINT POINT(300,10)'], ['SCREEN 1', 'DRAW "C256 U5"'],
                       ['PRINT INP(&H379)'], ['OUT &H37A,1'], ['SCREEN 1', 'DEF SEG=0', 'PRINT PEEK(1126)'],
                       ['DEF SEG=&HF000', 'BSAVE "ROM.BIN",0,100', 'BLOAD "ROM.BIN"'], ['DEF SEG=&HB800', 'BSAVE "Y.BIN",65000,1000'],
+                      ['DEF SEG=0', 'FOR I=1040 TO 1090:POKE I,0:X=PEEK(I):NEXT', 'FOR I=1040 TO 1090:POKE I,224:X=PEEK(I):NEXT'],
                       ['PRINT PEEK(4073)'], ['POKE 4073,1'], ['FOR I=3900 TO 4750:X=PEEK(I):POKE I,X:NEXT'],
                       ['BSAVE "LOW.BIN",0,32767'], ['FOR X=1E38 TO 1.7E38 STEP 1E38:NEXT']):
             c.append({'k': 'prog', 'lines': lines, 'default': True})
@@ -180,10 +181,11 @@ class C01(core.Check):
             b = min(65535, a + rng.randrange(16, 300))
             return pre + ['FOR I!=%d TO %d:X=INP(I!):NEXT' % (a, b), 'FOR I!=%d TO %d:OUT I!,%d:NEXT' % (a, b, rng.choice([0, 1, 255, rng.randrange(256)])),
                           'FOR I!=%d TO %d:X=INP(I!):NEXT' % (a, b), 'PRINT "x"', 'CLOSE']
-        a = rng.choice([rng.randrange(0, 65536), rng.randrange(0, 6000), rng.choice([0, 1000, 3800, 4000, 4500, 4700, 65000, 32500, 16000])])
+        a = rng.choice([rng.randrange(0, 65536), rng.randrange(0, 6000), rng.choice([0, 1000, 1000, 3800, 4000, 4500, 4700, 65000, 32500, 16000])])
         n = rng.randrange(200, 700)
         b = min(65535, a + n)
-        body = rng.choice(['X=PEEK(I%s)', 'X=PEEK(I%s):POKE I%s,X', 'POKE I%s,255-PEEK(I%s) AND 255']).replace('%s', '!')
+        body = rng.choice(['X=PEEK(I%s)', 'X=PEEK(I%s):POKE I%s,X', 'POKE I%s,255-PEEK(I%s) AND 255',
+                           'POKE I%%s,%d:X=PEEK(I%%s)' % rng.choice([0, 0, 224, 255, 13, rng.randrange(256)])]).replace('%s', '!')
         lines = pre + ['DEF SEG%s' % seg, 'FOR I!=%d TO %d:%s:NEXT' % (a, b, body)]
         if rng.random() < 0.3:
             lines.append('BSAVE "MW.BIN",%d,%d' % (a, n))
